@@ -63,6 +63,7 @@ type Harness struct {
 	objs    map[int]interface{}
 	ptrNode map[interface{}]*model.Node
 	rtypes  map[string]reflect.Type
+	renamed map[string]map[string]string // GraphQL type -> field -> Go field name bound with RegisterField
 	rootObj interface{}
 	hasAny  bool
 }
@@ -446,7 +447,19 @@ func (h *Harness) buildTypes() {
 		// and must be found by the reflection strategy like direct ones
 		var emb []reflect.StructField
 		for j, f := range t.Fields {
-			sf := reflect.StructField{Name: GoFieldName(f.Name), Type: anyT}
+			goName := GoFieldName(f.Name)
+			if i%3 == 2 && j == len(t.Fields)-1 && !h.NoRegister {
+				// a Go field whose name does not follow the capitalisation rule: bound explicitly with RegisterField
+				goName = "Rf" + sanitize(f.Name) + "Zz"
+				if h.renamed == nil {
+					h.renamed = map[string]map[string]string{}
+				}
+				if h.renamed[t.Name] == nil {
+					h.renamed[t.Name] = map[string]string{}
+				}
+				h.renamed[t.Name][f.Name] = goName
+			}
+			sf := reflect.StructField{Name: goName, Type: anyT}
 			if i%2 == 1 && len(t.Fields) >= 2 && j < len(t.Fields)/2 {
 				emb = append(emb, sf)
 			} else {
@@ -518,7 +531,11 @@ func (h *Harness) reflectObj(n *model.Node) interface{} {
 		if h.TypedSlices && n.ID%2 == 0 {
 			cv = typedSlice(cv)
 		}
-		pv.Elem().FieldByName(GoFieldName(f.Name)).Set(reflect.ValueOf(cv))
+		goName := GoFieldName(f.Name)
+		if rn := h.renamed[n.Type][f.Name]; rn != "" {
+			goName = rn
+		}
+		pv.Elem().FieldByName(goName).Set(reflect.ValueOf(cv))
 	}
 	return o
 }
@@ -558,6 +575,11 @@ func (h *Harness) register() error {
 		}
 		if err := h.Root.RegisterType(reflect.New(rt).Interface(), name); err != nil {
 			return fmt.Errorf("RegisterType(%s): %w", name, err)
+		}
+		for gf, goName := range h.renamed[name] {
+			if err := h.Root.RegisterField(name, gf, goName); err != nil {
+				return fmt.Errorf("RegisterField(%s, %s, %s): %w", name, gf, goName, err)
+			}
 		}
 	}
 	return nil
